@@ -360,7 +360,11 @@ where
                     }
                 }
             }
-            Err(e) => Err(PdfError::Shared { source: e.clone()}),
+            Err(_) => {
+                // the cached failure may stem from a load of this object as a different type
+                let p = self.resolve(key)?;
+                Ok(RcRef::new(key, T::from_primitive(p, self)?.into()))
+            }
         }
     }
     fn options(&self) -> &ParseOptions {
